@@ -3,7 +3,7 @@
 # usage: thorough_sweep.sh [ID ...]   (default: all)
 cd "$(dirname "$0")/.."
 IDS="$@"
-[ -z "$IDS" ] && IDS="C11 C12 C13 C05 C18 C20 C04 C09 C08 C06 C07 C17 C02 C19 C03 C10 C14 C15 C16 C01 G01 G02"
+[ -z "$IDS" ] && IDS="C11 C12 C13 C05 C18 C20 C04 C09 C08 C06 C07 C17 C02 C19 C03 C10 C14 C15 C16 C01 G01 G02 G03"
 for id in $IDS; do
   echo "=== $id $(date +%H:%M)"
   t0=$(date +%s)
